@@ -557,14 +557,15 @@ Section RegionMesh.
       intros H; inversion H; subst; unfold rot3, tri_pts; auto.
   Qed.
   Definition flip_shared (M : Mesh R) (i : nat) (e : Edge) : Prop :=
-    forall t ni nb a b c op, nth_error (tris M) i = Some t -> tp_neighbour t e = Some ni -> nth_error (tris M) ni = Some nb ->
+    forall t ni nb a b c op, nth_error (tris M) i = Some t -> tp_valid t = true -> tp_neighbour t e = Some ni ->
+      nth_error (tris M) ni = Some nb -> tp_valid nb = true ->
       flip_verts (tp_tri t) (tp_tri nb) e = Ok (a, b, c, op) -> ni <> i /\ rot3 (tri_pts (tp_tri nb)) (b, a, op).
   Theorem region_flip (i : nat) (e : Edge) (M M' : Mesh R) :
     flip_shared M i e -> flip_diagonal i e M = (M', Ok tt) ->
     mesh_area2 M' = mesh_area2 M /\ forall d q, mesh_cover d M' q = mesh_cover d M q.
   Proof.
     intros Hs H. destruct (live_flip i e M M' H) as (t & ni & nb & a & b & c & op & T1 & T2 & rest & Et & Ev & En & Enb & Evn & FV & E1 & E2 & P).
-    destruct (Hs t ni nb a b c op Et En Enb FV) as [Hne Hrot]. destruct (P Hne) as [P0 P1].
+    destruct (Hs t ni nb a b c op Et Ev En Enb Evn FV) as [Hne Hrot]. destruct (P Hne) as [P0 P1].
     pose proof (rot3_t2 _ _ _ _ (flip_verts_rot _ _ _ _ _ _ _ FV)) as R1. pose proof (rot3_t2 _ _ _ _ Hrot) as R2.
     split; [|intros d q].
     - apply (area_replace M M' [tp_tri t; tp_tri nb] [T1; T2] rest P0 P1). cbn [map].
@@ -950,7 +951,7 @@ Section Orientation.
     flip_shared M i e -> flip_convex M i e -> flip_diagonal i e M = (M', Ok tt) -> AllPos M -> AllPos M'.
   Proof.
     intros Hs Hc H. destruct (live_flip i e M M' H) as (t & ni & nb & a & b & c & op & T1 & T2 & rest & Et & Ev & En & Enb & Evn & FV & E1 & E2 & P).
-    destruct (Hs t ni nb a b c op Et En Enb FV) as [Hne Hrot]. destruct (P Hne) as [P0 P1].
+    destruct (Hs t ni nb a b c op Et Ev En Enb Evn FV) as [Hne Hrot]. destruct (P Hne) as [P0 P1].
     destruct (Hc t ni nb a b c op Et En Enb FV) as (C1 & C2 & C3).
     apply (pos_replace M M' [tp_tri t; tp_tri nb] [T1; T2] rest P0 P1). cbn [map]. intros Ho. inversion Ho as [|x l Hp _]; subst.
     apply (pos3_rot3 _ _ (rot3_t2 o e1 e2 _ _ _ _ (flip_verts_rot _ _ _ _ _ _ _ FV))) in Hp. unfold pos3 in Hp. cbn [fst snd] in Hp.
